@@ -4,6 +4,6 @@ for id in "$@"; do
   for p in /tmp/mut/$id/_out/patch*.diff; do
     [ -f "$p" ] || continue
     echo "######## $id $(basename $p)"
-    /verif/tools/mutant_run.sh $p $id ${EXTRA:-} 2>&1 | grep -E "^==|VIOLATION|apply|dirty|BUILD" | cut -c1-160
+    /verif/tools/mutant_run.sh $p ${id:0:3} ${EXTRA:-} 2>&1 | grep -E "^==|VIOLATION|apply|dirty|BUILD" | cut -c1-160
   done
 done
